@@ -68,7 +68,7 @@ PROPS["C09"] = {
                    "limits with values placed exactly at, one below and one above the layout's suffix sums / segment last-timestamps (plus tiny and huge), 1-6 "
                    "cleans with further appends in between; the expected cut k* = max(k_age,k_msgs,k_bytes) capped at n-1 is computed on the model and the "
                    "survivors must be exactly segments [k*,n), byte-identical, readable from every start offset"),
-    "level_note": "timestamps non-decreasing (leader-stamped); computeTTL is replaced by a fixed cut-off through the package variable meant for it; cleans concurrent with appends only in the thorough -race unit",
+    "level_note": "timestamps non-decreasing except at an epoch bump (a new leader whose clock is behind); computeTTL is replaced by a fixed cut-off through the package variable meant for it; unit C09b (-race, both tiers): message-count retention concurrent with an appending goroutine: what is left is a gap-free suffix of what was appended, the newest message included",
     "rule": ("rapid draws max segment bytes from {1,64,150,300,1024}, 1-3 rounds of (0-18 appends of 1-3 messages, optional reopen, optional HW move, 1-2 Clean() calls "
              "whose limits are selectors resolved against the current model layout). Non-trivial = a clean on >=3 segments with >=1 limit active whose expected "
              "cut is neither 0 nor n-1. Labels report all 7 limit combinations and each placement class."),
@@ -87,7 +87,7 @@ PROPS["C08"] = {
                    "repeated cleans with HW moves and appends in between, optionally with retention limits; oracle: Must (keyless, >=HW, newest segment, latest "
                    "committed per key) is a subset of the survivors, survivors are a subset of the log before, unchanged and ordered; then forward uncommitted, "
                    "forward committed and reverse committed readers from every start offset return exactly the survivors in range; committed readers that have already delivered part of the log stay parked across the cleans (also cleans that replace the segment they are in, with appends during the clean) and must continue with the next survivor, once"),
-    "level_note": "empty-but-non-nil keys are generated although only the commit-log API can store them; compaction concurrent with appends only in the thorough -race unit",
+    "level_note": "empty-but-non-nil keys are generated although only the commit-log API can store them; unit C08b (-race, both tiers): Clean() with 1-3 repetitions runs while another goroutine appends and rolls segments; schedule-independent oracle (survivors are original messages in order, everything that had to survive is there, the log stays usable and reopens to the same content)",
     "rule": ("rapid draws max segment bytes from {1,64,150,300,1024}, 1-3 rounds of (appends of 1-4 keyed messages with run-length bias, HW moves, optional reopen, a "
              "compacting Clean() with generated worker count, 0-2 repeat cleans). Non-trivial = a compaction over >=3 segments with the HW strictly inside the log "
              "and some key occurring at or below the HW in two different segments."),
@@ -133,7 +133,7 @@ PROPS["C03"] = {
     "level": "exploration",
     "technique": "model-based stateful property testing (rapid) with persistent committed readers + concurrent monitor under the race detector",
     "level_text": '(a) sequential interleavings with persistent committed readers: append / HW advance (anywhere, exactly on the last message of a segment, exactly on the first) / new reader (any start, beyond the HW, empty log) / read / read-only toggle, each read compared with the model (must deliver exactly the next committed message, or must not deliver anything); (b) real goroutines under the race detector: appender, HW advancer with lag and step, 1-6 readers created mid-run, read-only toggler; every reader checks online that what it gets is committed, consecutive, with the stored content, and reaches the final HW',
-    "level_note": 'one appending goroutine per log (as the leader loop / follower handler guarantee); (b) samples schedules, rapid cannot shrink them; negative expectations (must block) are positive-observation checks',
+    "level_note": 'one appending goroutine per log (as the leader loop / follower handler guarantee); (b) samples schedules, rapid cannot shrink them; negative expectations (must block) are positive-observation checks; operation parkro parks a reader at the HW in a real blocking ReadMessage while the log is switched to read-only: it must stay blocked if uncommitted messages remain and must end otherwise; SetHighWatermark with a lower value must be ignored',
     "rule": '(a) rapid draws 2-60 steps over segment sizes {1,64,150,300,1024}; non-trivial = a reader that blocked with the HW resting on the last message of a segment and later crossed into the next segment. (b) rapid draws batch sizes, lag, step, reader creation points and start fractions, toggles, yield pattern; non-trivial = >=2 readers parked in waitForHW at once and >=1 roll.',
     "assumptions": TRUST,
     "units": [
